@@ -72,7 +72,8 @@ ColumnsWith(resolve(_, _)) ==
               ELSE (IF r.form = "dict" THEN ColumnsOfDictKey("k" \o Str(i), r.pats[i], r.var, resolve)
                     ELSE ColumnsOfListEntry(r.pats[i], r.var, resolve)) \o F(i + 1)
   IN F(1)
-ColumnsM == ColumnsWith(ResolveM)
+ColumnsM == IF cs.req.form = "input" THEN [i \in 1..Len(ResolveM(cs.req.pats[1], "x")) |-> Col(<<"col", Str(i)>>, ResolveM(cs.req.pats[1], "x")[i])]
+            ELSE ColumnsWith(ResolveM)
 
 -----------------------------------------------------------------------------
 (* Layer P: CircuitTemplate.get_nodes *)
@@ -111,7 +112,25 @@ Relabel(pat) == IF cs.vec /\ "ListOutputRelabelFirst" \in Dev /\ cs.req.form = "
                    /\ \E n \in 1..NN : PathOf(n) = pat
                 THEN PathOf(FirstOfKind(NodeAt(pat))) ELSE pat
 ResolveP(pat, var) == FilterVar(GetNodesP(<<>>, Relabel(pat)), var)
-ColumnsP == ColumnsWith(ResolveP)
+
+(* (N,n) extrinsic input addressed by a (wildcard) path (C08): req.form = "input", one pattern.  M: column i drives the
+   i-th resolved node.  P (_add_input, _group_edges): one edge per resolved node carrying source_idx = its column; the
+   edges are grouped per vectorised target node (= kind); each group keeps a source-index list and a target-index list
+   (position of the node inside its vectorised node) that are extended edge by edge and later paired positionally. *)
+IsInput == cs.req.form = "input"
+GroupMembers(k) == SortNodes({m \in 1..NN : Kinds[m] = k})
+PosIn(seq, x) == CHOOSE j \in 1..Len(seq) : seq[j] = x
+RoutingM == LET ns == ResolveM(cs.req.pats[1], "x") IN [i \in 1..Len(ns) |-> Col(<<"col", Str(i)>>, ns[i])]
+RoutingP ==
+  LET ns == ResolveP(cs.req.pats[1], "x")
+      grpIdx(k) == SelectSeq([i \in 1..Len(ns) |-> i], LAMBDA i : Kinds[ns[i]] = k)     \* edges of the group, in edge order
+      srcList(k) == [j \in 1..Len(grpIdx(k)) |-> IF "SourceIdxPositional" \in Dev THEN j ELSE grpIdx(k)[j]]
+      tgtList(k) == [j \in 1..Len(grpIdx(k)) |-> PosIn(GroupMembers(k), ns[grpIdx(k)[j]])]
+      colOf(i) == LET k == Kinds[ns[i]]
+                      j == CHOOSE j \in 1..Len(grpIdx(k)) : tgtList(k)[j] = PosIn(GroupMembers(k), ns[i])
+                  IN srcList(k)[j]
+  IN [i \in 1..Len(ns) |-> Col(<<"col", Str(colOf(i))>>, ns[i])]
+ColumnsP == IF IsInput THEN RoutingP ELSE ColumnsWith(ResolveP)
 
 -----------------------------------------------------------------------------
 Init == cs \in Cases /\ pc = "start" /\ cols = <<>>
